@@ -76,6 +76,15 @@ fn nuts_opts(p: &Preset) -> Option<(u64, u64, Option<f64>, KineticEnergyKind, u6
     }
 }
 
+fn nuts_max_energy_error(p: &Preset) -> Option<f64> {
+    match p {
+        Preset::DiagNuts(s) => Some(s.max_energy_error),
+        Preset::LowRankNuts(s) => Some(s.max_energy_error),
+        Preset::FlowNuts(s) => Some(s.max_energy_error),
+        _ => None,
+    }
+}
+
 /// C03 oracles on one recorded history (requires keep_evals + observe_math). `prop` prefixes the keys so
 /// that C05 can reuse the membership part for "no invalid draws afterwards".
 pub fn check_draws(prop: &str, cfg: &ChainCfg, h: &History, out: &mut RunOutcome, full: bool) {
@@ -271,6 +280,34 @@ pub fn check_draws(prop: &str, cfg: &ChainCfg, h: &History, out: &mut RunOutcome
                                     }
                                 }
                             }
+                        }
+                    }
+                }
+            }
+            // a state is a divergence exactly when its energy error relative to the START of the trajectory exceeds
+            // max_energy_error (or is not a number): judged from the energies the tap reports, not from the flag
+            if let (Some(mee), false) = (nuts_max_energy_error(&cfg.preset), d.tap.is_empty()) {
+                if let Some(tr) = crate::refnuts::split_trajectories(&d.tap).first() {
+                    for t in tr.iter() {
+                        if t.failed || t.start {
+                            continue;
+                        }
+                        let err = t.energy - t.initial_energy;
+                        let expect = !err.is_finite() || err > mee;
+                        let near = err.is_finite() && (err - mee).abs() <= 1e-9 * (1.0 + mee.abs());
+                        if near {
+                            out.probe("energy_error_at_threshold_skipped", 1);
+                            continue;
+                        }
+                        if expect {
+                            out.probe("states_over_energy_limit", 1);
+                        }
+                        if expect != t.divergent {
+                            out.violate(
+                                format!("{prop}/divergence_flag_disagrees_with_energy_error/{pname}"),
+                                format!("draw {i}: state {} has energy {:e}, the trajectory started at {:e} (error {err:e}, max_energy_error {mee}): {} as a divergence", t.index, t.energy, t.initial_energy, if t.divergent { "treated" } else { "NOT treated" }),
+                            );
+                            return;
                         }
                     }
                 }
